@@ -118,11 +118,7 @@ Proof.
   intros Hb H1 H2. unfold set_state, set_state_with.
   destruct (negb (is_connected next)); [|split; assumption].
   assert (Hhd : s_snd (handle_disconnect_state drain s) = 1 /\ s_tgt (handle_disconnect_state drain s) = 1).
-  { unfold handle_disconnect_state. cbv zeta.
-    match goal with |- s_snd (upd_chan (drain ?x) _ _ _ _) = 1 /\ _ => set (s3 := x) end.
-    assert (H3b : s_in_buf s3 = []).
-    { unfold s3. repeat match goal with |- context [if ?c then _ else _] => destruct c end; exact Hb. }
-    rewrite (drain_empty s3 H3b). cbn [upd_chan s_snd s_tgt]. unfold s3.
+  { rewrite (hd_no_buffer s Hb). unfold disconnect_now. cbv zeta. cbn [upd_chan s_snd s_tgt].
     repeat match goal with |- context [if ?c then _ else _] => destruct c end; cbn; split; first [reflexivity | assumption]. }
   destruct (is_connected (s_st s)).
   - destruct (s_pending_stop _); exact Hhd.
@@ -235,3 +231,16 @@ Lemma lox_traces_reset :
         (false, false, 1, 1, true)]
   /\ c07_check lox_cfg (lox_run lox_plain) = [] /\ c07_check lox_cfg (lox_run lox_pending) = [].
 Proof. vm_compute. repeat split; reflexivity. Qed.
+
+(* the hypothesis "nothing buffered" of the step (and the guard of the clause) is needed: a Heartbeat numbered 2 is buffered
+   when the Logout arrives; the store is reset, then handleDisconnectState handles the buffered Heartbeat in the state the
+   session is still in: against the fresh store it is too high, a ResendRequest takes number 1 -- the next sender number is 2 *)
+Definition lox_buffered : list event :=
+  [EConnect; EIncoming (lox_msg T_LOGON 1); EArrive (lox_msg T_HEARTBEAT 2); EIncoming (lox_msg T_LOGOUT 2)].
+Lemma lox_buffered_counters :
+  map (fun o => (ob_st (snd o), ob_inbuf (snd o), ob_snd (snd o), ob_tgt (snd o), has_reset (ob_cbs (snd o)), wire_types (ob_wire (snd o))))
+      (lox_run lox_buffered)
+  = [(ShLogon, 0, 1, 1, false, []); (ShInSession, 0, 2, 2, false, [T_LOGON]); (ShInSession, 1, 2, 2, false, []);
+     (ShLatent, 0, 2, 1, true, [T_LOGOUT; T_RESENDREQ])]
+  /\ c07_check lox_cfg (lox_run lox_buffered) = [].
+Proof. vm_compute. split; reflexivity. Qed.
